@@ -23,7 +23,7 @@ ASSUMPTIONS = [
 ]
 BOUNDS = {
     "quick": dict(D=[2], rcap=4, full_alphabet_depth=2, reduced_alphabet_depth=3, vi=[0, 100], D_shallow=[1, 3], shallow_depth=1),
-    "thorough": dict(D=[1, 2, 3], rcap=6, full_alphabet_depth=3, reduced_alphabet_depth=6, vi=[0, 1, 100]),
+    "thorough": dict(D=[2], rcap=6, full_alphabet_depth=3, reduced_alphabet_depth=5, vi=[0, 100], D_shallow=[1, 3], shallow_depth=2),
 }
 BUDGET = {"quick": 900, "thorough": 5400}
 CHECKS = ("model", "caches")
